@@ -65,7 +65,9 @@ func genC15(t *rapid.T) interface{} {
 		sc.Cfg.PtyCols = rapid.IntRange(60, 100).Draw(t, "ptycols")
 		sc.SizeErrAt = k
 	}
-	if rapid.IntRange(0, 2).Draw(t, "slowdebug") == 0 {
+	if rapid.IntRange(0, 9).Draw(t, "nildebug") == 0 {
+		sc.Cfg.DebugNil = true
+	} else if rapid.IntRange(0, 2).Draw(t, "slowdebug") == 0 {
 		sc.Cfg.DebugSlowUs = rapid.IntRange(200, 3000).Draw(t, "slowdebugus")
 	}
 	// slow decorators and directed holds widen the window between "some bars
@@ -172,6 +174,12 @@ func runC15(ci interface{}) Result {
 	// exactly once, and nothing else. Two faults of the same cycle (a second bar
 	// failing too) may each be the one reported.
 	lines := strings.Split(strings.TrimSuffix(debug, "\n"), "\n")
+	if sc.Cfg.DebugNil {
+		// WithDebugOutput(nil): no report to look at; everything else still applies
+		r.Classes = append(r.Classes, "no-debug-output")
+		lines = []string{"verif: injected (not recorded)"}
+		debug = lines[0]
+	}
 	if debug == "" || len(lines) != 1 {
 		r.Err, r.Kind = fmt.Errorf("after a %s error the debug output holds %d lines, want exactly the error once: %q", site, len(lines), debug), "debug-count"
 		if debug == "" {
@@ -215,6 +223,19 @@ func runC15(ci interface{}) Result {
 		if !errors.Is(a.Err, mpb.ErrDone) {
 			r.Err, r.Kind = fmt.Errorf("Add after the error shutdown returned %v, want ErrDone", a.Err), "late-add"
 			return r
+		}
+	}
+	// the container is in a render cycle when the fault fires and serves nothing
+	// else until that cycle is over; after it, it is shutting down: a Write that
+	// starts after the fault cannot be accepted any more (accepted text would
+	// never be drawn)
+	for _, w := range tr.Writes {
+		if faultSeq != 0 && w.InvSeq > faultSeq && (w.N != 0 || !errors.Is(w.Err, mpb.ErrDone)) && len(w.Text) > 0 {
+			r.Err, r.Kind = fmt.Errorf("Write(%q) started after the %s error had occurred and returned (%d, %v), want (0, ErrDone)", w.Text, site, w.N, w.Err), "write-after-error"
+			return r
+		}
+		if faultSeq != 0 && w.InvSeq > faultSeq {
+			r.Classes = append(r.Classes, "write-after-error")
 		}
 	}
 	for _, w := range tr.LateWrites {
